@@ -147,6 +147,8 @@ class Runner:
         self.fl = fl
         self.dom = Dom(fl["dom"])
         self.regs = {}
+        self.wheres = {}
+        self.colls = {}
 
     # ---- observation helpers
     def frame_obs(self, st):
@@ -171,9 +173,22 @@ class Runner:
     def nanv(self, v):
         return np.nan if v is None else float(v)
 
+    def cl(self, c):
+        """the closed side as the literal, or as an equal string that is a different object (built at run time)"""
+        if self.fl.get("closedobj", "literal") == "built":
+            return "".join([c[:2], c[2:]])
+        return c
+
+    def finish(self, st):
+        """flavour closedobj='pickle': the operand went through pickle (as one returned from a worker process would)"""
+        if self.fl.get("closedobj", "literal") == "pickle":
+            import pickle
+            return pickle.loads(pickle.dumps(st))
+        return st
+
     # ---- leaf construction routes
     def build(self, s):
-        init, rows, closed = s["init"], s["rows"], s["closed"]
+        init, rows, closed = s["init"], s["rows"], self.cl(s["closed"])
         route = self.fl["route"]
         anynan = init is None or any(v is None for _, v in rows)
         if not rows:
@@ -232,6 +247,26 @@ class Runner:
             raise ValueError(route)
         return st
 
+    def container(self, kind, regs, ms):
+        """a StairsArray / Series of the members; with flavour persist=True the container built for a member list is kept
+        and used again by later aggregations over the same registers (members rebound since then are assigned into it)"""
+        mk = (lambda: sc.StairsArray(ms)) if kind == "array" else (lambda: pd.Series(ms, dtype="Stairs"))
+        if not self.fl.get("persist"):
+            return mk()
+        key = (kind, tuple(regs))
+        if key not in self.colls:
+            self.colls[key] = (mk(), list(ms))
+            return self.colls[key][0]
+        coll, old = self.colls[key]
+        for i, (a, b) in enumerate(zip(old, ms)):
+            if a is not b:
+                if kind == "array":
+                    coll[i] = b
+                else:
+                    coll.iloc[i] = b
+                old[i] = b
+        return coll
+
     def arg(self, a):
         if "reg" in a:
             return self.regs[a["reg"]]
@@ -248,10 +283,10 @@ class Runner:
         k = s["s"]
         R = self.regs
         if k == "new":
-            R[s["r"]] = sc.Stairs(initial_value=scalar(s["init"], self.fl["scalar"]), closed=s["closed"])
+            R[s["r"]] = self.finish(sc.Stairs(initial_value=scalar(s["init"], self.fl["scalar"]), closed=self.cl(s["closed"])))
             return self.frame_obs(R[s["r"]])
         if k == "from_values":
-            R[s["r"]] = self.mat(self.build(s))
+            R[s["r"]] = self.mat(self.finish(self.build(s)))
             return self.frame_obs(R[s["r"]])
         if k == "layer":
             st = R[s["r"]]
@@ -366,9 +401,9 @@ class Runner:
             elif cont == "ndarray":
                 coll = np.array(ms, dtype=object)
             elif cont == "series":
-                coll = pd.Series(ms, dtype="Stairs")
+                coll = self.container("series", s["ms"], ms)
             elif cont == "array":
-                coll = sc.StairsArray(ms)
+                coll = self.container("array", s["ms"], ms)
             else:
                 coll = list(ms)
             fn = {"sum": sc.sum, "mean": sc.mean, "median": sc.median, "min": sc.min, "max": sc.max,
@@ -376,7 +411,7 @@ class Runner:
             if cont == "accessor" and s["g"] in ("logical_or", "logical_and"):
                 r = getattr(pd.Series(ms, dtype="Stairs").sc, s["g"])()
             elif cont == "method":
-                r = getattr(sc.StairsArray(ms), s["g"])()
+                r = getattr(self.container("array", s["ms"], ms), s["g"])()
             else:
                 r = fn(coll)
             R[s["r"]] = r
@@ -471,7 +506,19 @@ class Runner:
         return st.slice(pd.IntervalIndex.from_tuples(ivs, closed=s["icl"]))
 
     def where_arg(self, s):
-        return (self.bound(s.get("lo")), self.bound(s.get("hi")))
+        """the window as the documented 'tuple or list of length two'; with flavour wherearg='reuse' the SAME list object is
+        handed to every call of the program that names that window (a call that writes into its argument then shows in
+        the next one)"""
+        t = (self.bound(s.get("lo")), self.bound(s.get("hi")))
+        w = self.fl.get("wherearg", "tuple")
+        if w == "list":
+            return list(t)
+        if w == "reuse":
+            key = (s.get("lo"), s.get("hi"))
+            if key not in self.wheres:
+                self.wheres[key] = list(t)
+            return self.wheres[key]
+        return t
 
     def query(self, s):
         st = self.regs[s["r"]]
